@@ -1425,7 +1425,9 @@ class Engine(CondMixin, Interp):
         term = self._subst(expr, d)
         for c in calls_in(expr):
             self.call_effect(st, c)
-        self.emit_event(st, "cond", norm(expr), {"outcome": outcome, "term": term}, expr)
+        core = expr.operand if isinstance(expr, ast.UnaryOp) and isinstance(expr.op, ast.Not) else expr
+        defn = norm(self.bool_defs[core.id]) if isinstance(core, ast.Name) and core.id in getattr(self, "bool_defs", {}) else ""
+        self.emit_event(st, "cond", norm(expr), {"outcome": outcome, "term": term, **({"def": defn} if defn else {})}, expr)
         self.learn(expr, outcome, d)
         return True
 
